@@ -18,6 +18,15 @@ type ctxD struct {
 	FromArray     bool // WithFromArray
 	Native        bool // leaves are Go values of the field's own kind (UnmarshalKey on a hand-built map)
 	Canon         func(string) string
+	NullClass     string // how a null reaches go-zero ("" = as a nil value: JSON null, nil map value; "yaml-null": a YAML null that the YAML->JSON step renders); goes into keys
+}
+
+// nullClass names the kind of null of this context for violation keys.
+func (c *ctxD) nullClass() string {
+	if c.NullClass != "" {
+		return c.NullClass
+	}
+	return "null"
 }
 
 func (c *ctxD) canon(k string) string {
@@ -72,6 +81,9 @@ type verdict struct {
 	unknown []string // reasons why acceptance is not demanded (completeness not asserted)
 	// what the reference looked at
 	nRangeIn, nRangeOut, nOptIn, nOptOut, nDep, nDepReject, nDefault, nRequiredMissing, nSupplied, nAbsentOptional int
+	// explicit nulls: for a scalar that is required in its context (must be rejected), for an optional scalar
+	// (zero / nil expected), where the statement is silent (defaulted, non-scalar, ambiguous dependency)
+	nNullRequired, nNullOptional, nNullSilent int
 }
 
 func (v *verdict) acceptDemanded() bool { return len(v.must) == 0 && len(v.unknown) == 0 }
@@ -182,6 +194,9 @@ func (v *verdict) add(o *verdict) {
 	v.nRequiredMissing += o.nRequiredMissing
 	v.nSupplied += o.nSupplied
 	v.nAbsentOptional += o.nAbsentOptional
+	v.nNullRequired += o.nNullRequired
+	v.nNullOptional += o.nNullOptional
+	v.nNullSilent += o.nNullSilent
 }
 
 func (v *verdict) evalField(f *fieldD, s *source, tree map[string]any, path string) {
@@ -194,10 +209,10 @@ func (v *verdict) evalField(f *fieldD, s *source, tree map[string]any, path stri
 		cls += "+inherit"
 	}
 	optional := f.Opt == optPlain
+	ambiguous := false // the dependency key is in the document with a null value
 	if f.Opt == optDep || f.Opt == optNotDep {
 		v.nDep++
 		dleaf, dpresent := tree[ctx.canon(f.Dep)]
-		ambiguous := null
 		switch {
 		case dpresent && dleaf == nil:
 			cls += "+dep-present" // the key is in the document (with a null value)
@@ -211,8 +226,19 @@ func (v *verdict) evalField(f *fieldD, s *source, tree map[string]any, path stri
 			cls += "+canon-keys"
 		}
 		if ambiguous {
+			// was the dependency supplied? the statement does not say what a null dependency means
 			v.unk("dependency rule of %s evaluated on a null value", p)
 			optional = true
+		} else if null {
+			// the field's own key carries null: nothing was supplied for it. Whether it had to be
+			// supplied follows from the dependency alone (optional=dep: required iff dep was supplied,
+			// optional=!dep: required iff dep was not); the both-or-neither / exactly-one rule is not
+			// claimed either way for a key that is present without a value (unknown below)
+			if f.Opt == optDep {
+				optional = !dpresent
+			} else {
+				optional = dpresent
+			}
 		} else if f.Opt == optDep {
 			optional = !dpresent
 			if dpresent != present {
@@ -258,9 +284,16 @@ func (v *verdict) evalField(f *fieldD, s *source, tree map[string]any, path stri
 	}
 	if null {
 		v.unk("null supplied for %s", p)
-		if f.scalar() && f.Opt == optNone && !f.HasDef {
+		switch {
+		case !f.scalar() || f.HasDef || ambiguous:
+			v.nNullSilent++ // the statement is silent: no panic, the same outcome on a repeat
+		case !optional:
+			// a scalar that is neither optional nor defaulted in this context, and no value for it
 			v.nRequiredMissing++
-			v.mustReject("required-missing", cls+"+null", p, "null for a scalar field without optional/default")
+			v.nNullRequired++
+			v.mustReject("required-missing", ctx.nullClass()+"/"+cls, p, "null for a scalar field that is neither optional nor defaulted in this context: it was not supplied")
+		default:
+			v.nNullOptional++ // accepted: zero value / nil pointer (compareTarget)
 		}
 		return
 	}
@@ -311,6 +344,7 @@ func (v *verdict) evalField(f *fieldD, s *source, tree map[string]any, path stri
 
 func (v *verdict) evalElem(e *fieldD, s *source, el any, p string) {
 	if el == nil {
+		v.nNullSilent++
 		v.unk("%s: null element", p)
 		return
 	}
@@ -753,8 +787,14 @@ func (c *comparer) field(f *fieldD, fv reflect.Value, s *source, tree map[string
 				}
 				return
 			}
-			if ok && !d.IsZero() {
+			switch {
+			case ok && !d.IsZero() && null:
+				c.bad(ctx.nullClass(), f.Kind, p, "null was accepted for the field (no default), yet it holds %v", d.Interface())
+			case ok && !d.IsZero():
 				c.bad("absent", f.Kind, p, "field was not supplied and has no default, yet holds %v", d.Interface())
+			case null && f.Ptr > 0 && !fv.IsNil():
+				// nothing was supplied: the pointer holds nothing
+				c.bad(ctx.nullClass(), f.Kind, p, "null was accepted for the pointer field, yet the pointer was set (to %s)", showValue(fv))
 			}
 		case f.Kind == reflect.Struct:
 			if null || f.Opt != optNone {
